@@ -502,6 +502,61 @@ fn run_case(model: Option<&mut Model>, proc_: &mut Proc, rep: &mut Report, case:
     }
 }
 
+/// A BURST: `k` transactions are already queued on the transaction channel when the batch maker
+/// starts handling them (a client burst, or arrivals while `seal` was busy).  C11: still exactly one
+/// batch per threshold crossing, in order, nothing lost — "sealed as soon as the size threshold is
+/// reached".  Independent oracle (no model): the batches laid end to end are the input; every batch
+/// sealed by size stays below the threshold without its last transaction.
+async fn exec_burst(batch_size: usize, sizes: &[usize]) -> Vec<(String, String)> {
+    let (tx_transaction, rx_transaction) = channel::<Vec<u8>>(10_000);
+    let (tx_message, mut rx_message) = channel::<QuorumWaiterMessage>(10_000);
+    let mut input: Vec<Vec<u8>> = Vec::new();
+    for (i, n) in sizes.iter().enumerate() {
+        let mut t = vec![1u8; *n];
+        for (k, b) in t.iter_mut().enumerate().skip(1) {
+            *b = ((i * 31 + k) % 251) as u8;
+        }
+        input.push(t.clone());
+        let _ = tx_transaction.send(t).await; // queued before the task exists: no yield in between
+    }
+    BatchMaker::spawn(batch_size, 1_000, rx_transaction, tx_message, vec![]);
+    tokio::time::sleep(Duration::from_micros(1)).await;
+    settle().await;
+    let mut by_size: Vec<Vec<Vec<u8>>> = Vec::new();
+    while let Ok(m) = rx_message.try_recv() {
+        match bincode::deserialize::<MempoolMessage>(&m.batch) {
+            Ok(MempoolMessage::Batch(b)) => by_size.push(b),
+            _ => return vec![("C11:sealed-batch-not-decodable".into(), "a sealed batch does not decode as MempoolMessage::Batch".into())],
+        }
+    }
+    // the rest is sealed by the timer
+    tokio::time::advance(Duration::from_millis(1_001)).await;
+    tokio::time::sleep(Duration::from_micros(1)).await;
+    settle().await;
+    let mut all = by_size.clone();
+    while let Ok(m) = rx_message.try_recv() {
+        if let Ok(MempoolMessage::Batch(b)) = bincode::deserialize::<MempoolMessage>(&m.batch) {
+            all.push(b);
+        }
+    }
+    let mut out = Vec::new();
+    let flat: Vec<Vec<u8>> = all.iter().flatten().cloned().collect();
+    if flat != input {
+        out.push(("C11:transactions-lost-or-reordered".into(), format!("burst of {} transactions (sizes {:?}, batch_size {}): the sealed batches laid end to end are {} transactions and differ from the input", input.len(), sizes, batch_size, flat.len())));
+    }
+    for (i, b) in by_size.iter().enumerate() {
+        let total: usize = b.iter().map(|t| t.len()).sum();
+        let without_last: usize = total - b.last().map_or(0, |t| t.len());
+        if batch_size > 0 && without_last >= batch_size {
+            out.push(("C11:not-sealed-at-threshold".into(), format!("burst (sizes {:?}, batch_size {}): batch {} holds {} transactions / {} B; it had already reached the threshold ({} B) before its last transaction and was not sealed then", sizes, batch_size, i, b.len(), total, without_last)));
+        }
+        if total < batch_size {
+            out.push(("C11:sealed-below-threshold-without-timer".into(), format!("burst: batch {} of {} B sealed although below batch_size {} and no timer fired", i, total, batch_size)));
+        }
+    }
+    out
+}
+
 pub fn run(o: &Opts) -> Report {
     let mut rep = Report::new("batchmaker", "C11", &o.tier, o.seed);
     rep.rule = format!("benchmark feature = {}; batch_size in {{0,1,2,5,9,16,100,1000}}, max_batch_delay in {{3,7,100}} ms; transactions of 0 B, 1 B, batch_size-1/+0/+1, 2x, 3x+1, 8/9/10 B (benchmark sample boundary) and random sizes, first byte 0 / 1 / random; clock advances of 1, delay-1, delay, delay+1, 2*delay+1 ms between them; directed pairs (a,b) of boundary sizes x 4 timings plus random sequences of up to 25 events; every sealed batch through the real Processor+Store; distinct by the case; non-trivial when at least two batches are sealed", BENCHMARK);
@@ -514,6 +569,24 @@ pub fn run(o: &Opts) -> Report {
         }
         PANICS.lock().unwrap().push(format!("panicked at {}: {}", loc, msg));
     }));
+    // bursts (not with the benchmark sample scan: sizes start with byte 1)
+    if o.replay.is_none() {
+        let mut rng = SmallRng::seed_from_u64(o.seed ^ 0xb0057);
+        let n_bursts = if o.thorough() { 200 } else { 12 };
+        for k in 0..n_bursts {
+            let batch_size = [200usize, 100, 64, 1000][k % 4];
+            let len = rng.gen_range(3, 25);
+            let sizes: Vec<usize> = (0..len).map(|_| if rng.gen_bool(0.5) { 100 } else { rng.gen_range(1, 260) }).collect();
+            let rt = tokio::runtime::Builder::new_current_thread().enable_all().start_paused(true).build().unwrap();
+            let v = rt.block_on(exec_burst(batch_size, &sizes));
+            drop(rt);
+            rep.evaluations += 1;
+            rep.hit("case.burst");
+            for (kind, d) in v {
+                rep.finding("impl_vs_property", &kind, d, json!({"engine": "batchmaker", "burst": {"batch_size": batch_size, "sizes": sizes}}));
+            }
+        }
+    }
     let mut proc_ = Proc::new(o.seed);
     let mut distinct = BTreeSet::new();
     let mut rng = SmallRng::seed_from_u64(o.seed);
@@ -522,6 +595,19 @@ pub fn run(o: &Opts) -> Report {
         let v: serde_json::Value = serde_json::from_str(&std::fs::read_to_string(file).expect("replay file")).expect("replay json");
         if v.get("benchmark").and_then(|b| b.as_bool()).map_or(false, |b| b != BENCHMARK) {
             rep.hit("replay.recorded-on-the-other-build");
+        }
+        if let Some(b) = v.get("burst") {
+            let batch_size = b["batch_size"].as_u64().unwrap_or(200) as usize;
+            let sizes: Vec<usize> = b["sizes"].as_array().map(|a| a.iter().map(|x| x.as_u64().unwrap_or(0) as usize).collect()).unwrap_or_default();
+            let rt = tokio::runtime::Builder::new_current_thread().enable_all().start_paused(true).build().unwrap();
+            let vs = rt.block_on(exec_burst(batch_size, &sizes));
+            drop(rt);
+            rep.evaluations += 1;
+            for (kind, d) in vs {
+                rep.finding("impl_vs_property", &kind, d, json!({"engine": "batchmaker", "burst": {"batch_size": batch_size, "sizes": sizes}}));
+            }
+            std::panic::set_hook(old_hook);
+            return rep;
         }
         let case: Case = serde_json::from_value(v).expect("replay case");
         run_case(None, &mut proc_, &mut rep, &case, &mut distinct, &mut rng);
